@@ -36,7 +36,7 @@ REPS = {  # laue class / setting -> (space-group number, cell_choice, N quick, N
     '6/mmm': (191, 'standard', 2, 2), '6/m': (175, 'standard', 2, 2), '-3m1': (164, 'standard', 2, 2), '-31m': (162, 'standard', 2, 2), '-3': (147, 'standard', 2, 2),
     '-3m:R': (166, 'rhombohedral', 1, 2), '-3:R': (148, 'rhombohedral', 1, 2), 'mmm': (47, 'standard', 1, 2), '2/m': (10, 'standard', 1, 1), '-1': (2, 'standard', 1, 1),
 }
-UNIT_TIMEOUT = {'quick': 400, 'thorough': 3000}
+UNIT_TIMEOUT = {'quick': 400, 'thorough': 1500}
 
 
 def units(tier):
@@ -175,7 +175,7 @@ def run_unit(u, desc, tier, seed):
             Ha = mod.genhkl_all(token, minS, maxS, sgno=no, cell_choice=cc, output_stl=True)
         return Hu, Ha
     budget = 600 if tier == 'quick' else 20000
-    leaves, exh = ctx.explore(body, max_paths=budget, max_seconds=250 if tier == 'quick' else 2500)
+    leaves, exh = ctx.explore(body, max_paths=budget, max_seconds=250 if tier == 'quick' else 1200)
     u.exhaustive = exh
     u.decisions = ctx.decisions
     boxpts = [h for h in itertools.product(range(-N, N + 1), repeat=3) if h != (0, 0, 0)]
